@@ -499,6 +499,15 @@ func (bh *Header) AddReference(r *Reference) error {
 		if r.uri == nil {
 			r.uri = er.uri
 		}
+		if len(r.otherTags) == 0 {
+			r.otherTags = er.otherTags
+		}
+		// r replaces er in the header, so it takes over its
+		// identity and er is released.
+		er.owner = nil
+		er.id = -1
+		r.owner = bh
+		r.id = dupID
 		bh.refs[dupID] = r
 		return nil
 	}
